@@ -719,7 +719,9 @@ func comparePayload(f string, pkg *pkgread.Pkg, want model.PlanResult, pkgMTime 
 		if f == "rpm" && w.Kind == "implicit dir" {
 			continue
 		}
-		if w.Dst == "/" && f == "rpm" {
+		if w.Dst == "/" && (f == "rpm" || f == "apk" || f == "archlinux") {
+			// the root directory itself has no name inside these archives (deb and ipk write it as ./); a member with
+			// an empty name would be reported as an extra entry (fix d99543c)
 			continue
 		}
 		key := strings.TrimRight(w.Dst, "/")
